@@ -150,7 +150,18 @@ def m3_json_block_extension(S):
                      and "json_proposals" in flows.get("proposals", "")))
 
 
-OBLIGATIONS = [m1_extra_hash, m2_hash_inputs, m3_json_block_extension]
+def m4_molecule_strict_is_canonical(S):
+    """every dynamic schema type: strict decoding accepts exactly the canonical encodings (one level per type, nested types as
+    predicates: assume-guarantee over the acyclic schema); fixed-size types: exactly their size, getters at their offsets"""
+    from obligations import molecule_m as MM
+    ob = "C15.m4"
+    for t in MM.dynamic_types():
+        MM.strict_and_compat(S, ob, t, 5)
+    for t in MM.fixed_types():
+        MM.fixed_type(S, ob, t)
+
+
+OBLIGATIONS = [m1_extra_hash, m2_hash_inputs, m3_json_block_extension, m4_molecule_strict_is_canonical]
 
 _P = os.path.join(os.path.dirname(__file__), "..", "kani", "molecule", "gen_molecule.json")
 _OKFILE = os.path.join(os.path.dirname(__file__), "..", "kani", "molecule", "feasible.json")
@@ -169,11 +180,13 @@ ENGINE = "M+K"
 LEVEL = "other"
 EXPLANATION = ("Hash commitments as dataflow facts over the real MIR (which byte string feeds which hash), the JSON->packed block conversion's handling of the "
                "extension, and canonical-form harnesses over the generated molecule readers for the schema types CBMC can finish.")
-BOUNDS = {"M": "dataflow: no numeric bound", "K": "byte strings up to the per-type buffer length written in each harness bound; only types listed in kani/molecule/feasible.json",
-          "outside": "collision resistance; serde_json text layer; molecule builders/entities (Bytes vtables exhaust CBMC memory: measured); tables with nested dynamic fields beyond the feasible list"}
+BOUNDS = {"M": "dataflow obligations: no numeric bound. Molecule obligations (m4): byte slices of ANY length; every type of the three schema files; per table at most 1 extra field, per dynamic vector at most 2 items (inputs beyond are excluded by the `out` condition)",
+          "K": "byte strings up to the per-type buffer length written in each harness bound; only types listed in kani/molecule/feasible.json",
+          "outside": "collision resistance; serde_json text layer; molecule builders/entities (Bytes vtables exhaust CBMC memory: measured); encode side of the round trip"}
 ASSUMPTIONS = ["blake2b is an opaque function of the sequence of its update() arguments", "as_slice/as_reader/raw accessors are environment symbols named by their receiver"]
 TRUSTED = []
-LEVEL_TEXT = ("Decides (a) the commitment structure of tx/witness/header/pow/script/extra hashes and (b) extension handling of the JSON block conversion by symbolic execution of MIR, "
-              "and (c) canonical form of strictly accepted encodings for the small molecule types by Kani. Round trips through builders and the full JSON layer are outside.")
-LEVEL_NOTE = "Partial claim: hash-input dataflow + small-type canonical form. Builders, large tables and JSON text are not covered (measured out of reach, see DESIGN.md)."
+LEVEL_TEXT = ("Decides (a) the commitment structure of tx/witness/header/pow/script/extra hashes, (b) extension handling of the JSON block conversion and (c) for every molecule schema type that "
+              "strict decoding accepts exactly the canonical encodings (SMT over the MIR of the generated verify functions, modular over the schema) ; (d) Kani harnesses for five small types. "
+              "Builders (the encode side) and the JSON text layer are outside.")
+LEVEL_NOTE = "Decode side only: `accepted by from_slice <=> canonical layout` for all schema types within stated count bounds; builders, JSON text, collision resistance not covered."
 TECHNIQUE = "symbolic execution of rustc MIR (dataflow) -> SMT, plus Kani/CBMC harnesses generated from the molecule schema"
